@@ -503,6 +503,17 @@ func runC07Crash(args []string) int {
 		}
 	}
 	res := &OracleResult{Stats: map[string]int{}}
+	if err := c07CheckInterfaces(); err != nil {
+		// nothing can be enumerated faithfully: say so as a violation of the check itself
+		path := filepath.Join(*replayDir, "C07-c07crash-interface.txt")
+		_ = os.MkdirAll(*replayDir, 0o755)
+		_ = os.WriteFile(path, []byte("oracle c07crash\n# "+err.Error()+"\n"), 0o644)
+		res.Violations = append(res.Violations, OracleViol{Desc: "C07: " + err.Error(), Replay: path})
+		if *out != "" {
+			writeResult(*out, res)
+		}
+		return 0
+	}
 	ops := append(append([]string{}, c07Ops...), "startup")
 	if *opsFlag != "" {
 		ops = strings.Split(*opsFlag, ",")
